@@ -764,6 +764,75 @@ def _(c):
     sh.rotation = "ninety"
 
 
+# ---------------------------------------------------------------- refused attribute values ("an out-of-range attribute value ... leaves
+# every part as valid as it was"): each call must raise the documented exception and must leave nothing half-written behind
+REFUSED = ["ValueError", "TypeError"]
+
+
+@op("reject.chart_style", CHARTS, rejects=REFUSED)
+def _(c): _ch(c).chart_style = 49
+
+
+@op("reject.chart_font_size", CHARTS, rejects=REFUSED)
+def _(c): _ch(c).font.size = Pt(5000)
+
+
+@op("reject.axis_major_unit", AXCHARTS, rejects=REFUSED)
+def _(c): _ch(c).value_axis.major_unit = 0
+
+
+@op("reject.axis_minor_unit", AXCHARTS, rejects=REFUSED)
+def _(c): _ch(c).value_axis.minor_unit = -2.5
+
+
+@op("reject.axis_maximum", AXCHARTS, rejects=REFUSED)
+def _(c): _ch(c).value_axis.maximum_scale = "auto"
+
+
+@op("reject.axis_minimum", AXCHARTS, rejects=REFUSED)
+def _(c): _ch(c).value_axis.minimum_scale = "auto"
+
+
+@op("reject.bar_gap_width", ["chart_bar"], rejects=REFUSED)
+def _(c): _ch(c).plots[0].gap_width = 501
+
+
+@op("reject.bar_overlap", ["chart_bar"], rejects=REFUSED)
+def _(c): _ch(c).plots[0].overlap = 101
+
+
+@op("reject.bubble_scale", ["chart_bubble"], rejects=REFUSED)
+def _(c): _ch(c).plots[0].bubble_scale = 301
+
+
+@op("reject.marker_size", ["chart_line", "chart_xy"], rejects=REFUSED)
+def _(c): _ch(c).plots[0].series[0].marker.size = 1
+
+
+@op("reject.font_size", TEXTY, rejects=REFUSED)
+def _(c): _tf(c).paragraphs[0].font.size = Pt(4001)
+
+
+@op("reject.paragraph_level", TEXTY, rejects=REFUSED)
+def _(c): _tf(c).paragraphs[0].level = 9
+
+
+@op("reject.space_before", TEXTY, rejects=REFUSED)
+def _(c): _tf(c).paragraphs[0].space_before = Pt(1585)
+
+
+@op("reject.line_width", LINEY, rejects=REFUSED)
+def _(c): c.sh.line.width = Emu(20116801)
+
+
+@op("reject.width_negative", ["autoshape", "textbox", "picture", "table", "chart_bar"], rejects=REFUSED)
+def _(c): c.sh.width = Emu(-1)
+
+
+@op("reject.slide_width", ["slide"], rejects=REFUSED)
+def _(c): c.prs.slide_width = Emu(1)
+
+
 def table() -> list[dict]:
     """The catalogue without the callables (what the TLA+ machine reads)."""
     return [{k: v for k, v in o.items() if k != "fn"} for o in OPS]
